@@ -8,6 +8,7 @@ require (
 	github.com/codelaboratoryltd/bng v0.0.0
 	github.com/insomniacslk/dhcp v0.0.0-20231206064809-8c70d406f6d2
 	go.uber.org/zap v1.27.0
+	golang.org/x/sys v0.39.0
 	layeh.com/radius v0.0.0-20231213012653-1006025d24f8
 )
 
@@ -24,7 +25,6 @@ require (
 	golang.org/x/exp v0.0.0-20250718183923-645b1fa84792 // indirect
 	golang.org/x/net v0.48.0 // indirect
 	golang.org/x/sync v0.19.0 // indirect
-	golang.org/x/sys v0.39.0 // indirect
 	golang.org/x/time v0.14.0 // indirect
 )
 
